@@ -384,6 +384,7 @@ type history struct {
 	faultAt     map[int]string // rows-event ordinal -> fault kind
 	eventCount  int
 	events      []evRec
+	reordered   string // table whose columns were permuted
 	eventLog    []string
 	deliverCh   chan []*replication.BinlogEvent
 	deliverDone chan struct{}
@@ -479,7 +480,14 @@ func (h *history) onCommit(changes []fakesql.RowChange) {
 		h.events = append(h.events, evRec{table: table, commitIdx: idx, desc: desc, faulty: strings.Contains(desc, "FAULT") || h.staleMap[table]})
 		id := h.tableIDs[table]
 		// MySQL precedes every rows event with the table map of its table
-		events = append(events, tableMapEvent(database, table, id), rowsEvent(database, table, id, typ, rows))
+		ncols := 0
+		if len(rows) > 0 {
+			ncols = len(rows[0])
+		}
+		if def, ok := h.eng.Def(table); ok {
+			ncols = len(def.Columns) // what MySQL's table map reports, whatever a fault did to the rows
+		}
+		events = append(events, tableMapEvent(database, table, id, ncols), rowsEvent(database, table, id, typ, rows))
 	}
 	var curTable string
 	var curKind fakesql.ChangeKind
@@ -562,6 +570,42 @@ func (h *history) alter(table string, renewTableID bool) {
 		h.eventLog = append(h.eventLog, "ALTER "+table+" (table id NOT renewed)")
 	}
 	h.mu.Unlock()
+}
+
+// reorder permutes the columns of a table (same column count) and renews its
+// table id. RunPollLoop reads a table's columns when it first decodes an event
+// of it, so an event produced before the change but decoded after it with a
+// freshly read (new) column list would be mis-decoded - the race the code
+// comment in RunPollLoop accepts. The harness therefore reorders only once
+// the binlog has read the table's columns (its information_schema query is in
+// the statement log), which keeps every event decodable on a correct tree.
+func (h *history) reorder(table string) {
+	cached := func() bool {
+		for _, st := range h.eng.Log() {
+			if st.Table == "information_schema.columns" && len(st.Args) == 2 && st.Args[1] == table && st.Done {
+				return true
+			}
+		}
+		return false
+	}
+	deadline := time.Now().Add(500 * time.Millisecond)
+	for !cached() {
+		if time.Now().After(deadline) {
+			h.run.Count("reorder_skipped_columns_not_read_yet", 1)
+			return
+		}
+		time.Sleep(500 * time.Microsecond)
+	}
+	if err := h.eng.ReorderColumns(table, reorders[table]); err != nil {
+		h.run.Broken(err.Error())
+		return
+	}
+	h.mu.Lock()
+	h.tableIDs[table] += 100
+	h.reordered = table
+	h.eventLog = append(h.eventLog, "ALTER "+table+" reorder columns to "+strings.Join(reorders[table], ",")+" (new table id)")
+	h.mu.Unlock()
+	h.run.Count("reorder_done", 1)
 }
 
 type writeOp struct {
@@ -649,6 +693,8 @@ func (h *history) apply(ctx context.Context, op writeOp) {
 		err = h.db.UpsertRows(ctx, typedSlice(op.table, op.rows), 2)
 	case "Alter":
 		h.alter(op.table, op.renew)
+	case "Reorder":
+		h.reorder(op.table)
 	case "Tx":
 		txctx, tx, terr := h.db.WithTx(ctx)
 		if terr != nil {
@@ -766,6 +812,47 @@ func runHistory(run *vlib.Run, i int, fixed *fixedPlan) {
 		plans[w] = append(plans[w][:at:at], append([]writeOp{op}, plans[w][at:]...)...)
 	}
 
+	reorderTable := ""
+	if fixed == nil && !faulty && schemaChange == "" && r.Intn(4) == 0 {
+		// a column-count-preserving schema change: some writes on the table,
+		// the reorder, then more writes on it
+		reorderTable = tableNames[r.Intn(len(tableNames))]
+		schemaChange = "reorder"
+		w := r.Intn(nWriters)
+		onTable := func() writeOp {
+			row := genRow(r, reorderTable)
+			if wd, ok := row.(*Wide); ok {
+				wd.Id = 1 + r.Int63n(maxWide+1)
+			}
+			switch r.Intn(4) {
+			case 0:
+				if reorderTable == "wides" {
+					row.(*Wide).Id = 0
+				}
+				return writeOp{kind: "InsertRow", table: reorderTable, rows: []interface{}{row}}
+			case 1:
+				return writeOp{kind: "DeleteRow", table: reorderTable, rows: []interface{}{row}}
+			}
+			return writeOp{kind: "UpdateRow", table: reorderTable, rows: []interface{}{row}}
+		}
+		at := r.Intn(len(plans[w]) + 1)
+		var mid []writeOp
+		for k := 0; k < 2; k++ {
+			mid = append(mid, onTable())
+		}
+		// an upsert/insert that certainly produces an event before the reorder
+		if reorderTable == "wides" {
+			mid = append(mid, writeOp{kind: "InsertRow", table: "wides", rows: []interface{}{genRow(r, "wides")}})
+		} else {
+			mid = append(mid, writeOp{kind: "UpsertRow", table: reorderTable, rows: []interface{}{genRow(r, reorderTable)}})
+		}
+		mid = append(mid, writeOp{kind: "Reorder", table: reorderTable})
+		for k := 0; k < 4+r.Intn(4); k++ {
+			mid = append(mid, onTable())
+		}
+		plans[w] = append(plans[w][:at:at], append(mid, plans[w][at:]...)...)
+	}
+
 	// binlog
 	b, push, fail := livesql.NewBinlogForVerif(h.ldb, database)
 	b.SetLogger(h.logger)
@@ -832,6 +919,24 @@ func runHistory(run *vlib.Run, i int, fixed *fixedPlan) {
 			seen[table+fd.String()] = true
 			qid++
 			q := &liveQuery{id: qid, table: table, row: r.Intn(4) == 0, fd: fd}
+			qs = append(qs, q)
+			h.queries = append(h.queries, q)
+			h.byID[q.id] = q
+		}
+		perRerunner = append(perRerunner, qs)
+	}
+	if reorderTable != "" {
+		// live queries on columns the reorder moves
+		var qs []*liveQuery
+		seen := map[string]bool{}
+		for j := 0; j < 2; j++ {
+			fd := sentinelFilter(r, reorderTable)
+			if seen[fd.String()] {
+				continue
+			}
+			seen[fd.String()] = true
+			qid++
+			q := &liveQuery{id: qid, table: reorderTable, fd: fd}
 			qs = append(qs, q)
 			h.queries = append(h.queries, q)
 			h.byID[q.id] = q
